@@ -1406,6 +1406,11 @@ func cpOracle(res *Result, c *CopyCase, jr *JobResult) []Problem {
 	if out.Stray != "" {
 		bad("clause 3 (surroundings)", "objects appeared outside /w: "+out.Stray, "")
 	}
+	for k, api := range []string{"TarResource", "TarResourceRebase"} {
+		if out.TarAbsent[k] != "notexist" {
+			bad("clause 1 (absent source is an error)", fmt.Sprintf("%s on a source path that does not exist: %s, want a not-exist error", api, out.TarAbsent[k]), "")
+		}
+	}
 	unchanged := renderTree(out.Before) == renderTree(out.After)
 	expectErr := len(m.errs) > 0
 
